@@ -417,6 +417,9 @@ def c04_jobs(tier):
     for (recs, nm, ds, mw) in shapes:
         jobs.append(_fa("VerifC04_Fasta", recs, nm, ds, mw))
     jobs.append(_fa("VerifC04_Fasta", [18], 1, 0, 3))
+    for bt in ((3, 6) if tier == "quick" else (3, 4, 5, 6, 12)):
+        jobs.append({"pkgdir": "io/featio/bed", "func": "VerifC04_Bed", "params": {"bedtype": bt, "records": 2}})
+    jobs.append({"pkgdir": "io/featio/gff", "func": "VerifC04_Gff", "params": {"records": 2}})
     for recs in ([[2], [1, 2]] if tier == "quick" else [[2], [1, 2], [4], [2, 0, 3]]):
         p = {"records": len(recs), "name": 1, "desc": 1}
         for i, n in enumerate(recs):
@@ -430,4 +433,53 @@ CHECKS["C04"] = {
     "functions": ["fasta.(*Reader).Read", "fasta.(*Writer).Write (generator)"],
     "explanation": "relational check: canonical text from the real writer vs a layout-transformed text (re-wrap, blank line, trailing blanks, CRLF, missing final newline, one long physical line through a 16-byte bufio buffer); both parsed by the real reader; record lists must be equal",
     "outside": "",
+}
+
+
+FMT_MODELS = {"fmt.Fprintf": "github.com/biogo/biogo/zz_verifmodel.Fprintf", "fmt.Fprint": "github.com/biogo/biogo/zz_verifmodel.Fprint",
+              "fmt.Sprintf": "github.com/biogo/biogo/zz_verifmodel.Sprintf", "fmt.Sprint": "github.com/biogo/biogo/zz_verifmodel.Sprint"}
+
+
+def c02_jobs(tier):
+    jobs = []
+    widths = [3, 4, 5, 6, 12]
+    nwide = {3: 2, 4: 2, 5: 3, 6: 3, 12: 10}
+
+    def bed(n, m, wide):
+        return {"pkgdir": "io/featio/bed", "func": "VerifC02_Bed", "models": FMT_MODELS,
+                "params": {"n": n, "m": m, "wide": wide, "textlen": 1 if tier == "quick" else 2, "blocks": 1 if tier == "quick" else 2},
+                "timeout_s": 900 if tier == "quick" else 3000}
+    for n in widths:
+        for m in widths:
+            if m > n:
+                continue
+            if tier == "quick":
+                if m == n:
+                    jobs.append(bed(n, m, (n + 1) % nwide[m]))
+                elif m == 3 or (n == 12 and m == 6):
+                    jobs.append(bed(n, m, 0))
+            else:
+                for wide in range(nwide[m]):
+                    jobs.append(bed(n, m, wide))
+    if tier == "quick":
+        for wide in (3, 6, 8):
+            jobs.append(bed(12, 12, wide))
+    combos = [(0, 0, 0, 1, 0), (1, 2, 3, 0, 1), (2, 1, 5, 1, 1), (2, 0, 6, 0, 0)] if tier == "quick" else \
+             [(w, a, sc, h, c) for w in (0, 1, 2) for a in (0, 1, 2, 3) for (sc, h, c) in ((0, 1, 0), (3, 0, 1), (5, 1, 1), (6, 0, 0), (1, 0, 0), (2, 1, 0), (4, 0, 1))]
+    for (wide, attrs, score, header, comment) in combos:
+        jobs.append({"pkgdir": "io/featio/gff", "func": "VerifC02_Gff", "models": FMT_MODELS,
+                     "params": {"wide": wide, "attrs": attrs, "score": score, "header": header, "comment": comment, "textlen": 1 if tier == "quick" else 2,
+                                "maxneg": 9 if tier == "quick" else 99, "maxpos": 99 if tier == "quick" else 999},
+                     "timeout_s": 900 if tier == "quick" else 3000})
+    jobs.append({"pkgdir": "io/featio/gff", "func": "VerifC02_GffRegion", "models": FMT_MODELS, "params": {"textlen": 1, "len": 4}})
+    return jobs
+
+
+CHECKS["C02"] = {
+    "jobs": c02_jobs,
+    "extra_patterns": ["./zz_verifmodel"],
+    "functions": ["bed.(*Writer).Write, bed.format (through reflect intrinsics), parseBed3..12, mustAto*", "strconv.ParseInt/ParseUint (executed)", "fmt = Go model package zz_verifmodel (subset printer, interpreted symbolically)"],
+    "assumptions": ["fmt.{Fprintf,Fprint,Sprintf,Sprint} are replaced by the model in /verif/models/zz_verifmodel (verbs %s %d %v %c, '*' width, '.*' precision, Formatter/Stringer/error operands); natively the real fmt runs, and every witness is replayed natively"],
+    "explanation": "symbolic coordinates/scores in [-99,999], strands, text bytes, colour, blocks; written by the real writer (through the fmt model) and parsed by the real reader; field-by-field equality; a BED-n record written at width m reads back as its first m columns",
+    "outside": "coordinates beyond +-999 in the round trip, text fields longer than stated, arbitrary float scores",
 }
